@@ -263,9 +263,15 @@ where
 
                                 // write the files to the current directory with their SOPInstanceUID as filenames
                                 let mut file_path = out_dir.to_path_buf();
-                                file_path.push(
-                                    sop_instance_uid.trim_end_matches('\0').to_string() + ".dcm",
-                                );
+                                // the SOP instance UID is provided by the peer:
+                                // keep only a plain file name, so that the file
+                                // is always created directly in the output directory
+                                let file_name =
+                                    sop_instance_uid.trim_end_matches('\0').to_string() + ".dcm";
+                                let file_name = std::path::Path::new(&file_name)
+                                    .file_name()
+                                    .whatever_context("invalid SOP Instance UID for a file name")?;
+                                file_path.push(file_name);
                                 file_obj
                                     .write_to_file(&file_path)
                                     .whatever_context("could not save DICOM object to file")?;
